@@ -231,7 +231,9 @@ fn quic_endpoint() -> Option<quinn::Endpoint> {
 async fn start_env(a: &Args, idx: usize, sub: &str, proto: Proto, transport: Transport, udp: bool, rng: &mut Rng) -> Result<Env, String> {
     let users = match proto {
         Proto::Vmess(_) => 1,
-        Proto::Ss(m) if m.supports_eih() && rng.chance(1, 3) => 2,
+        // a user table wherever the cipher can have one and datagrams are served (the multi-user paths are a superset of the
+        // single-user ones at every listener); otherwise now and then
+        Proto::Ss(m) if m.supports_eih() && (udp || rng.chance(1, 3)) => 2,
         _ => 0,
     };
     let cfg = Cfg::random(rng, proto, users);
